@@ -160,7 +160,38 @@ def gen_dechunk(tier, log):
     return out
 
 
-GENERATORS = {"dechunk": gen_dechunk}
+def gen_flow(tier, log):
+    cfg = os.path.join(SPEC, "MCFlow_edges_%s.cfg" % tier)
+    key = spec_hash("flow-" + tier + open(cfg).read(), ["MCFlow", "Flow", "RespRules", "Big"])
+    os.makedirs(GEN, exist_ok=True)
+    out = os.path.join(GEN, "flow-%s-%s.ndjson" % (tier, key))
+    if os.path.exists(out):
+        return out
+    t0 = time.time()
+    dump = out + ".dump"
+    run_tlc_dump("MCFlow", cfg, dump)
+    _table, edges = load_dump(dump)
+    os.remove(dump)
+    edges, paths, ncov = edge_cover(edges, maxlen=40, prefer=lambda e: e["op"]["op"] not in ("arrive", "can_proceed"))
+    tmp = out + ".tmp"
+    with open(tmp, "w") as f:
+        for p in paths:
+            e0 = edges[p[0]]
+            ops = []
+            for j in p:
+                op = dict(edges[j]["op"])
+                op.pop("fails", None)
+                ops.append(op)
+            f.write(json.dumps({"kind": "flow", "coding": e0["cod"], "ops": ops}) + "\n")
+    os.rename(tmp, out)
+    for old in os.listdir(GEN):
+        if old.startswith("flow-%s-" % tier) and os.path.join(GEN, old) != out:
+            os.remove(os.path.join(GEN, old))
+    log("gen: flow/%s: %d model edges covered by %d scripts (%.1fs)" % (tier, ncov, len(paths), time.time() - t0))
+    return out
+
+
+GENERATORS = {"dechunk": gen_dechunk, "flow": gen_flow}
 
 
 def ensure(name, tier, log):
